@@ -111,7 +111,7 @@ def ensure_sbeppc():
 def ensure_generated(schema_xml, schema_name=None):
     """Run the current tree's sbeppc on a schema; returns include dir containing <schema_name>/..."""
     exe, key = ensure_sbeppc()
-    k = text_hash(key, file_hash([schema_xml]), schema_name or "")
+    k = text_hash(key, file_hash([schema_xml]), schema_name or "", "v2")
     d = os.path.join(CACHE, "gen-" + k)
     lk = _lock(os.path.join(CACHE, "gen-" + k + ".lock"))
     try:
@@ -125,6 +125,12 @@ def ensure_generated(schema_xml, schema_name=None):
         p = sh(cmd, check=False, timeout=120)
         if p.returncode != 0:
             raise ToolError("sbeppc rejected corpus schema %s (exit %d): %s" % (schema_xml, p.returncode, p.stdout[-2000:]))
+        # g++ treats two '#pragma once' files with equal size, mtime and content as one file: the top-level headers of two schemas
+        # that differ only in byte order are identical, so give every generated tree its own timestamp (native replay uses g++)
+        t = 1600000000 + int(k[:7], 16)
+        for root, _, files in os.walk(d):
+            for fn in files:
+                os.utime(os.path.join(root, fn), (t, t))
         open(os.path.join(d, ".ok"), "w").write("ok")
         return d
     finally:
